@@ -6,6 +6,7 @@ import re
 import cli
 from core import Property, Stream, dec_list, enc_list
 import reports_common as rc
+from se2e import LintFileE2EStream
 
 JCATS = ("bad", "deprecated", "noext", "missing", "unused", "readerr", "nocop", "nolic")
 PCATS = ("bad", "deprecated", "noext", "missing", "unused", "readerr", "noboth", "nocoponly", "noliconly")
@@ -379,9 +380,13 @@ class LintFileStream(Stream):
 
 PROPERTY = Property(
     pid="C13",
-    streams=[FormatsStream(), LintFileStream()],
+    streams=[FormatsStream(), LintFileStream(), LintFileE2EStream()],
     table_roundtrip=rc.table_roundtrip,
     assumptions=[
+        "stream lintfile-e2e: the composed model (Model/SpdxE2E.lean) receives the tree itself, the working directory and the FILE arguments "
+        "as typed; it resolves them on the tree (`.`, `..`, existence, leaving the root), restricts the composed lint model's project to "
+        "the covered files they denote, and applies the formatters to the composed report; symlinks as arguments or on the way to one "
+        "are outside the model (read as dangling; the tool resolves them to their target)",
         "formatters are modelled as functions to (category, item) entries; wording, ordering, wrapping and the recommendations text are "
         "not compared; the harness parsers turn the real outputs into the same entries",
         "lint-file's path handling (relative / absolute / other working directory, click's existence check) is exercised end to end; the "
